@@ -766,7 +766,13 @@ def run_store_program(prog):
                 out.append("s " + st)
             elif op[0] == "world":
                 w = op[2]
-                kb.obj[op[1]].reset_world(wmap[w])
+                # the two public routes to a new world assumption for a formula that is already in the model, alternating:
+                # Formula.reset_world(w) and Model.add_knowledge(formula, world=w)
+                meta["world_ops"] = meta.get("world_ops", 0) + 1
+                if meta["world_ops"] % 2:
+                    kb.model.add_knowledge(kb.obj[op[1]], world=wmap[w])
+                else:
+                    kb.obj[op[1]].reset_world(wmap[w])
                 lo, hi = WORLDS[w]
                 world[op[1]] = (lo, hi)
                 # rows that were asserted before: whether their data survives reset_world is not fixed by the properties
